@@ -313,7 +313,10 @@ impl RefSpline {
                 let z = Rat::ZERO;
                 match l {
                     End::NotAKnot => {
-                        assert!(self.d3(0) == self.d3(1), "certificate failed: left not-a-knot")
+                        assert!(
+                            self.d3(0) == self.d3(1),
+                            "certificate failed: left not-a-knot"
+                        )
                     }
                     End::Natural => assert!(self.d2(0, false) == z),
                     End::Clamped => assert!(self.k[0] == z),
@@ -331,7 +334,10 @@ impl RefSpline {
                     End::Second(v) => assert!(self.d2(m - 1, true) == Rat::from_f64(v)),
                 }
                 if n == 3 && l == End::NotAKnot && r == End::NotAKnot {
-                    assert!(self.d3(0) == z && self.d3(1) == z, "n=3 not-a-knot is the parabola");
+                    assert!(
+                        self.d3(0) == z && self.d3(1) == z,
+                        "n=3 not-a-knot is the parabola"
+                    );
                 }
             }
         }
@@ -368,4 +374,100 @@ pub fn mono_spec(rel: &[i8]) -> MonoSpec {
         // mixed directions, or constant
         MonoSpec::NotMonotonic
     }
+}
+
+// ---------------------------------------------------------------------------------------
+// reference values with automatic fallback from exact rationals to double-double
+
+use crate::dd::DD;
+
+pub fn rat_to_dd(r: Rat) -> DD {
+    fn split(n: i128) -> DD {
+        let hi = n as f64;
+        let lo = (n - hi as i128) as f64;
+        DD { hi, lo }
+    }
+    split(r.num()) / split(r.den())
+}
+
+/// tiny denormal-range values are replaced by 0 for the rational computation
+fn ratq(v: f64) -> Rat {
+    Rat::try_from_f64(v).unwrap_or_else(|| {
+        if v.abs() < 1e-290 {
+            Rat::ZERO
+        } else {
+            // force the fallback
+            panic!("{}", crate::rat::RAT_OVERFLOW)
+        }
+    })
+}
+
+/// value at q of the line through (x1,y1),(x2,y2); `exact` tells which number system was used
+pub fn chord_ref(x1: f64, y1: f64, x2: f64, y2: f64, q: f64) -> (DD, bool) {
+    match crate::driver::try_exact(|| chord(ratq(x1), ratq(y1), ratq(x2), ratq(y2), ratq(q))) {
+        Some(r) => (rat_to_dd(r), true),
+        None => {
+            let (x1, y1, x2, y2, q) = (
+                DD::new(x1),
+                DD::new(y1),
+                DD::new(x2),
+                DD::new(y2),
+                DD::new(q),
+            );
+            (y1 + (y2 - y1) * (q - x1) / (x2 - x1), false)
+        }
+    }
+}
+
+/// exact bilinear form (see [`bilinear`]) with fallback
+#[allow(clippy::too_many_arguments)]
+pub fn bilinear_ref(
+    x1: f64,
+    x2: f64,
+    y1: f64,
+    y2: f64,
+    z11: f64,
+    z12: f64,
+    z21: f64,
+    z22: f64,
+    qx: f64,
+    qy: f64,
+) -> (DD, bool) {
+    match crate::driver::try_exact(|| {
+        bilinear(
+            ratq(x1),
+            ratq(x2),
+            ratq(y1),
+            ratq(y2),
+            ratq(z11),
+            ratq(z12),
+            ratq(z21),
+            ratq(z22),
+            ratq(qx),
+            ratq(qy),
+        )
+    }) {
+        Some(r) => (rat_to_dd(r), true),
+        None => {
+            let d = DD::new;
+            let tx = (d(qx) - d(x1)) / (d(x2) - d(x1));
+            let ty = (d(qy) - d(y1)) / (d(y2) - d(y1));
+            let one = d(1.0);
+            (
+                d(z11) * (one - tx) * (one - ty)
+                    + d(z21) * tx * (one - ty)
+                    + d(z12) * (one - tx) * ty
+                    + d(z22) * tx * ty,
+                false,
+            )
+        }
+    }
+}
+
+/// |got - reference| as f64
+pub fn err_dd(got: f64, r: DD) -> f64 {
+    if !got.is_finite() {
+        return f64::INFINITY;
+    }
+    (DD::new(got) - r).abs().to_f64()
 }
